@@ -411,3 +411,65 @@ def fix_row(r):
     if r[0] == 'notdict':
         return ('notdict', r[1])
     return (r[0], tuple(r[1]) if r[1] is not None else None, r[2], r[3])
+
+
+def alias_probe(ctx, rows, keys, thorough):
+    """A slice or a filtered copy of a grid is another grid: rows added to one of them afterwards must not become visible
+    to lookups on the other (no index shared between them).  Implementation only - a functional model has no aliasing."""
+    import itertools
+    import hszinc
+    named = list(rows.values())
+
+    def make(desc):
+        im = Impl(True, False)
+        for r in desc:
+            im.g.append(dict(im.obj(r)))
+        return im.g
+
+    def scan(g, key):
+        return [r for r in g if 'id' in r and str(r['id']) == key]
+
+    def views(g):
+        n = len(g)
+        out = [('g[:]', lambda: g[:]), ('g[0:len]', lambda: g[0:n]), ('g[-len:]', lambda: g[-n:] if n else g[0:0]), ('g[::1]', lambda: g[::1]),
+               ("filter('', limit=len)", lambda: g.filter('', limit=n) if n else g[0:0]), ('g[1:]', lambda: g[1:]), ('g[::-1]', lambda: g[::-1])]
+        return out
+
+    combos = [c for n in range(0, 3 if not thorough else 4) for c in itertools.product(named[:5], repeat=n)]
+    count = 0
+    for desc in combos:
+        for warm in (True, False):
+            for vi in range(7):
+                for who in ('view', 'parent'):
+                    for how in ('append', 'insert'):
+                        g = make(desc)
+                        if warm:
+                            for k in keys:
+                                g.get(k)
+                        name, mk = views(g)[vi]
+                        v = mk()
+                        if warm:
+                            for k in keys:
+                                v.get(k)
+                        target, other = (v, g) if who == 'view' else (g, v)
+                        new = {'id': 'fresh-id', 'v': 99}
+                        if how == 'append':
+                            target.append(new)
+                        else:
+                            target.insert(0, new)
+                        count += 1
+                        ctx.coverage['evaluations'] += 1
+                        for obj, label in ((target, 'the grid that was mutated'), (other, 'the other grid')):
+                            for k in list(keys) + ['fresh-id']:
+                                want = scan(obj, k)
+                                got = obj.get(k)
+                                ok = (got is None and not want) or any(got is w for w in want)
+                                if not ok:
+                                    ctx.violation('impl-counterexample',
+                                                  'after v = %s of a %d-row grid (index %s) and %s.%s(row with id fresh-id): %s answers get(%r) with %r, its rows say %r'
+                                                  % (name, len(desc), 'built' if warm else 'not built', 'v' if who == 'view' else 'g', how, label, k,
+                                                     None if got is None else dict(got), [dict(w) for w in want][:2]),
+                                                  {'rows': [list(map(str, d)) for d in desc], 'view': name, 'mutated': who, 'how': how, 'index_built': warm})
+                                    return False
+    ctx.count('alias-probes', count)
+    return True
